@@ -199,6 +199,15 @@ def crossSparseDropped (exact : Bool) (S O : Nat) (D X : Block) (v : Verdict) : 
           let df := d.getD s1 0 - x.getD s1 0
           decide (-slack ≤ df) && decide (df ≤ 2 * tolSmall + slack)))
         (fun _ => s!"updateBeliefUnnormalized/sparse differs_from_dense_beyond_threshold o={o} dense={d} sparse={x}")
+    -- normalised forms (theorem `posterior_sparse_close`): within S·2·tol·(1+tol) / P_dense(o | b, a), when both are finite
+    let pd := sumTo S (arrVec d)
+    match xsFin (D.obs.getD o e).no, xsFin (X.obs.getD o e).no with
+    | some nd, some nx =>
+      if pd > 0 then
+        v := fIf v (!(allLt S fun s1 =>
+              decide (absQ (nd.getD s1 0 - nx.getD s1 0) ≤ (S : Rat) * (2 * tolSmall * (1 + tolSmall)) / pd + tol9)))
+            (fun _ => s!"updateBelief/sparse differs_from_dense_beyond_threshold o={o} dense={nd} sparse={nx}")
+    | _, _ => pure ()
   return v
 
 /-- `upd exact S O | T | Ob | R | b | dense … | sparse … | generic … | usereigen …` -/
